@@ -17,6 +17,7 @@ import copy
 import json
 import random
 import re
+import gc
 import sys
 
 from harness import wrapproto as wp
@@ -55,6 +56,7 @@ def run(ctx):
                       replay_plans(ctx.quick), wp.REL_KINDS + wp.REL_KINDS + ("run", "stage", "lazy_stage"), {}, {})
         plan_level(ctx)
     finally:
+        gc.collect()                 # left-over generators are finalised while the hook is still silenced
         sys.unraisablehook = old_hook
     ctx.assumptions += [
         "CPython generator semantics; positions and offsets are small integers (the arithmetic is exact)",
